@@ -1461,8 +1461,13 @@ impl ProtocolState {
                         let topic_alias_maximum = self.current_settings.as_ref().map(|settings| settings.topic_alias_maximum_to_server).unwrap_or(0);
                         self.outbound_alias_resolver.borrow_mut().reset_for_new_connection(topic_alias_maximum);
                     }
+                    let is_connect = matches!(packet, MqttPacket::Connect(_));
                     self.current_operation = None;
                     self.complete_operation_as_failure(current_operation_id, error)?;
+                    if is_connect {
+                        // without a CONNECT there is no handshake to wait for: the connection attempt has failed
+                        return Err(GneissError::new_packet_validation(PacketType::Connect, "the CONNECT built from the connect options failed validation"));
+                    }
                     continue;
                 }
 
